@@ -24,8 +24,8 @@ BIN = {'Add': 'FAdd', 'Sub': 'FSub', 'Mul': 'FMul', 'Div': 'FDiv', 'Rem': 'FRem'
 BINM = {'copysign': 'FCopysign', 'div_euclid': 'FDivEuclid', 'rem_euclid': 'FRemEuclid'}
 TRICK = {'floor': '(floor_lane O %(x)s)', 'ceil': '(ceil_lane O %(x)s)', 'trunc': '(trunc_lane O %(x)s)', 'round': '(round_lane O %(x)s)',
          'fract': '(f32_2 O FSub %(x)s (trunc_lane O %(x)s))', 'fract_gl': '(f32_2 O FSub %(x)s (floor_lane O %(x)s))',
-         'abs': '(abs_lane O %(x)s)', 'neg': '(neg_lane O %(x)s)', 'copysign': '(copysign_lane O %(x)s %(y)s)'}     # multi-instruction SSE2 operations (src/sse2.rs m128_*)
-SSE_DIRECT = {'Add', 'Sub', 'Mul', 'Div', 'min', 'max'}     # single lane-wise SSE2 instructions (min/max = the documented compare-select)
+         'abs': '(abs_lane O %(x)s)', 'signum': '(signum_lane O %(x)s)', 'neg': '(neg_lane O %(x)s)', 'copysign': '(copysign_lane O %(x)s %(y)s)'}     # multi-instruction SSE2 operations (src/sse2.rs m128_*)
+SSE_DIRECT = {'Add', 'Sub', 'Mul', 'Div', 'min', 'max', 'clamp', 'exp', 'powf', 'div_euclid', 'rem_euclid', 'recip'}     # single lane-wise SSE2 instructions (min/max = the documented compare-select)
 
 def simd_backed(structs, n):
     fs = structs.get(n); return bool(fs) and len(fs) == 1 and fs[0][1] == 'm128'
@@ -94,6 +94,8 @@ def lanewise(cfg, structs, f, n, k, d, opname, prim, unary=False, scalar_left=Fa
         if simd and opname in ('min', 'max') and not cfg.startswith('coresimd'):
             prim2 = 'FMinSse' if opname == 'min' else 'FMaxSse'
             lanes = [op2(k, prim2, A[0][i], A[1][i]) for i in range(d)]
+        elif simd and opname == 'clamp' and not cfg.startswith('coresimd'):      # self.max(min).min(max) with the SSE2 min/max instructions
+            lanes = [op2(k, 'FMinSse', op2(k, 'FMaxSse', A[0][i], A[1][i]), A[2][i]) for i in range(d)]
         else: lanes = [lane(i) for i in range(d)]
         d = {'vars': vs, 'lhs': lhs, 'rhs': 'Ok (%s)' % tree_fill(rt, iter(lanes)), 'spec': 'direct %s' % opname}
         if sse_trick: d['pre'] = 'i_1 O U32 INot 2147483648 = Some 2147483647'; d['spec'] = 'lane function of FloatTricks.v for %s (proved equal to the IEEE primitive there)' % opname
